@@ -339,6 +339,9 @@ func E5Reserved(c *core.Ctx, r *core.Report) {
 				if nes, ok := list[i+1].(*ast.ExprStmt); ok {
 					if vc, ok := nes.X.(*ast.CallExpr); ok && len(vc.Args) == 1 {
 						trailer, _ = core.Unparen(vc.Args[0]).(*ast.CompositeLit)
+						if id, ok := core.Unparen(vc.Args[0]).(*ast.Ident); ok && trailer == nil {
+							trailer = defs[id.Name] // the dictionary may be built in a local first
+						}
 					}
 				}
 			}
@@ -375,6 +378,57 @@ func E5Reserved(c *core.Ctx, r *core.Report) {
 	}
 	if v := dictEntry(info, trailer, "Size"); v != nil {
 		sizeExpr = types.ExprString(v)
+	}
+	// the Size is evaluated where the dictionary literal stands: nothing that adds an object may follow it
+	{
+		adders := map[*types.Func]bool{}
+		decls := map[*types.Func]*ast.FuncDecl{}
+		for _, d := range core.AllFuncDecls(p) {
+			if f, ok := info.Defs[d.Name].(*types.Func); ok && d.Body != nil {
+				decls[f] = d
+			}
+		}
+		for f, d := range decls {
+			ast.Inspect(d.Body, func(n ast.Node) bool {
+				if as, ok := n.(*ast.AssignStmt); ok && len(as.Lhs) == 1 && len(as.Rhs) == 1 {
+					if fieldSel(info, as.Lhs[0], "pdfWriter", "objOffsets") {
+						if call, ok := core.Unparen(as.Rhs[0]).(*ast.CallExpr); ok {
+							if id, ok := call.Fun.(*ast.Ident); ok && id.Name == "append" {
+								adders[f] = true
+							}
+						}
+					}
+				}
+				return true
+			})
+		}
+		for changed := true; changed; {
+			changed = false
+			for f, d := range decls {
+				if adders[f] {
+					continue
+				}
+				ast.Inspect(d.Body, func(n ast.Node) bool {
+					if call, ok := n.(*ast.CallExpr); ok {
+						if g := core.CalleeOf(info, call); g != nil && adders[g] && !adders[f] {
+							adders[f] = true
+							changed = true
+						}
+					}
+					return true
+				})
+			}
+		}
+		late := ""
+		ast.Inspect(fd.Body, func(n ast.Node) bool {
+			if call, ok := n.(*ast.CallExpr); ok && call.Pos() > trailer.End() {
+				if g := core.CalleeOf(info, call); g != nil && adders[g] && late == "" {
+					late = c.Src(call)
+				}
+			}
+			return true
+		})
+		check("trailer Size evaluated after the last object", late == "", "no object is added after the trailer dictionary is built", fmt.Sprintf("`%s` adds objects after the trailer dictionary — and with it `/Size` — has been evaluated: the objects it appends (font programs, ToUnicode streams) are numbered at or above /Size and a conforming reader treats them as missing", late), trailer.Pos())
 	}
 	check("xref count == trailer Size", xrefCount != "" && xrefCount == sizeExpr, xrefCount, fmt.Sprintf("xref section announces `%s` entries but the trailer's Size is `%s`", xrefCount, sizeExpr), trailer.Pos())
 	var cat *ast.CompositeLit
